@@ -186,6 +186,22 @@ def program(draw, n=None, min_n=2, max_n=6, depth=2, max_ops=8, lossy=True,
 def flat_program(draw, min_n=2, max_n=7, max_ops=15, lossy=True, min_ops=0):
     n = draw(st.integers(min_n, max_n))
     ops = draw(st.lists(primitive(n, lossy), min_size=min_ops, max_size=max_ops))
+    if lossy and ops and draw(st.integers(0, 3)) == 0:
+        # loss elements back to back on one mode (a lossy component followed by extra loss on one of its modes)
+        i = draw(st.integers(0, len(ops) - 1))
+        op = ops[i]
+        mode = None
+        if op[0] == "loss":
+            mode = op[1]
+        elif op[0] == "ps" and not isinstance(op[3], dict) and op[3] > 0:
+            mode = op[1]
+        elif op[0] == "bs" and not isinstance(op[5], dict) and op[5] > 0:
+            mode = draw(st.sampled_from([op[1], op[1] + 1 if op[2] is None else op[2]]))
+        if mode is not None and len(ops) < max(max_ops, 1) + 2:
+            extra = [["loss", mode, draw(loss_pos)]]
+            if draw(st.booleans()):
+                extra.insert(0, ["barrier", None])
+            ops[i + 1:i + 1] = extra
     return {"n": n, "ops": ops}
 
 
